@@ -13,6 +13,7 @@ type Op struct {
 	Name string  `json:"op"`
 	In   []int   `json:"in,omitempty"`   // operand slots
 	R    int     `json:"r,omitempty"`    // reuse / incr / destination slot (Mode says which)
+	R2   int     `json:"r2,omitempty"`   // the incr slot when both a reuse and an incr tensor are given (Mode reuse-incr)
 	Out  int     `json:"out"`            // slot receiving a tensor result (-1: discarded)
 	Mode string  `json:"mode,omitempty"` // "", unsafe, reuse, incr, same, ...
 	Form string  `json:"form,omitempty"` // vv, vs, sv
